@@ -492,6 +492,18 @@ def gen_peak_jobs(rng, n):
             caller = rng.choice(["same", "s32"])
         name = "p%04d-%s-%s-c%d-%s%d-%s-%s-%s" % (k, container, enc, ch, caller, scale, shape, part, valmode)
         jobs.append(gen_job(rng, name, container, enc, ch, caller, scale, shape, part, valmode))
+    # every converting writer (host_write_s2f/i2f/d2f, s2d/i2d/f2d) with a call longer than the staging buffer and a channel
+    # count that does not divide 2048 / 1024: always present, whatever the seed (the class of the repaired KF-C18-STAGING-MISALIGN)
+    k = n
+    for enc in ("f32", "f64"):
+        for caller in ("otherfloat", "s16", "s32"):
+            for ch in (3, 5, 6):
+                container = conts[k % 6]
+                scale = k % 2
+                # the maximum of every channel sits in the last frame, i.e. in the last staging buffer of the long call
+                name = "p%04d-%s-%s-c%d-%s%d-%s-%s-%s" % (k, container, enc, ch, caller, scale, "last", "big", "stagefix")
+                jobs.append(gen_job(rng, name, container, enc, ch, caller, scale, "last", "big", "exact32" if enc == "f64" else "any"))
+                k += 1
     return jobs
 
 
